@@ -295,6 +295,11 @@ def _shard(shard, col: Collector):
                 for bs in ((3, 3), (1, 1, 1, 1), (2, 2, 2)):
                     rec("worst", {"n": nn, "m": 2, "tols": (0.25,) * nn, "shape": "linear", "crit": "minimize", "batches": bs},
                         check_worst(nn, 2, (0.25,) * nn, "linear", "minimize", bs), True)
+        if n == 3 and m == 2:
+            # batches whose designs and neighbours run into the thousands (population 100 with 20-40 parameters)
+            for nn, bs in ((25, (100,)), (40, (51,)), (20, (100, 100)), (33, (65,)), (64, (33,)), (2, (1000,))):
+                rec("worst", {"n": nn, "m": 1, "tols": (0.25,) * nn, "shape": "sumsq", "crit": "minimize", "batches": bs},
+                    [(k, msg[:400]) for k, msg in check_worst(nn, 1, (0.25,) * nn, "sumsq", "minimize", bs)], True)
         col.sample({"kind": "worst-case", "n": n, "m": m, "tols": list(TOLS[:n]), "batches": [2, 1, 2]}, 1)
     elif kind == "grad":
         for n in (1, 2, 3):
@@ -308,6 +313,8 @@ def _shard(shard, col: Collector):
                     for mag in (2.0e4, 2.5e6, -3.0e5, 7.0e11, 3.0e12, -1.0e15, 2.0 ** 39, 2.0 ** 40 + 1.0):  # beyond 2**39 the step is below one ulp
                         rec("grad", {"n": n, "shape": shape, "crit": crit, "batches": (2,), "magnitude": mag},
                             check_gradient(n, shape, crit, (2,), mag), True)
+        for n, bs in ((33, (3,)), (65, (2,)), (129, (1,)), (3, (100,)), (2, (513,)), (8, (33, 65))):       # many parameters, large batches
+            rec("grad", {"n": n, "shape": "linear", "crit": "minimize", "batches": bs}, [(k, m[:400]) for k, m in check_gradient(n, "linear", "minimize", bs)], True)
         for n in (4, 5, 6):         # more parameters, more and larger batches
             for bs in ((3, 3), (1, 1, 1, 1), (4,)):
                 rec("grad", {"n": n, "shape": "linear", "crit": "minimize", "batches": bs}, check_gradient(n, "linear", "minimize", bs), True)
